@@ -262,6 +262,8 @@ def gen_history(rng, n, delegation=True):
             tags.append(t)
         if rng.random() < 0.1:
             tags.append([rng.choice(QNAMES)])          # bare tag
+        if tags and len(tags[0]) > 1 and rng.random() < 0.15:
+            tags.insert(0, [tags[0][0]])               # a valueless tag in front of a valued one of the same name
         if delegation and rng.random() < 0.12:
             tags.append(delegation_tag((who + 1 + rng.randrange(3)) % 4, who))
         fb = rng.choice([None] * 8 + [0x00, 0xFF])
@@ -1168,9 +1170,47 @@ def suites_c11(tier, seed):
     return [suite_frame(tier, seed), suite_monotone(tier, seed), suite_union(tier, seed), suite_access_paths(tier, seed, "kv"), suite_access_paths(tier, seed, "sql")]
 
 
+def suite_limit_not_exceeded(tier, seed):
+    s = Suite("rel:kv-limit-not-exceeded")
+    s.rule = ("C12 last sentence: a limit larger than (or equal to) the number of matching events truncates nothing. For generated filters "
+              "(ids / kinds / authors / tags / windows and their conjunctions) the answer under Config.max_limit=%d is taken first; the same "
+              "filter with limit = that number, +1 and +3 must return the same set; non-trivial = the filter has several conditions and a "
+              "non-empty answer" % BIG)
+    env = _env()
+    rng = rng_for(seed, "kvlimne")
+    results = []
+
+    async def go():
+        for _ in range(15 if tier == "quick" else 150):
+            evs = gen_history(rng, rng.choice([5, 9, 14]), delegation=False)
+            st, _ = await load_store(evs, max_limit=BIG)
+            for _ in range(10):
+                raw = big_filter(rng, evs)
+                try:
+                    validate_filter(raw)
+                except Exception:
+                    continue
+                a, _o = await impl_req(st, [raw])
+                if not a:
+                    continue
+                for extra in (0, 1, 3):
+                    b, _o = await impl_req(st, [dict(raw, limit=len(a) + extra)])
+                    results.append((raw, len(a) + extra, [e["id"] for e in a], [e["id"] for e in b]))
+            await close_store(st)
+    env.run(go())
+    for raw, lim, a, b in results:
+        conds = [k for k in raw if k != "limit"]
+        s.case({"filter": raw, "limit": lim}, nontrivial=len(conds) > 1)
+        s.count("conds_%d" % min(len(conds), 4))
+        if sorted(a) != sorted(b):
+            s.violate("limit-cap-or-newest", {"filter": raw, "limit": lim, "matching": len(a)},
+                      "a limit of %d truncated an answer of %d matching events to %d" % (lim, len(a), len(b)), expected=sorted(a), observed=sorted(b))
+    return s
+
+
 def suites_c12(tier, seed):
     return [suite_corpus(tier, seed, only=("C12",)), suite_oracle(tier, seed, props=("c12",), name="oracle:kv-c12", label="kvc12"),
-            suite_multi_filter(tier, seed)]
+            suite_multi_filter(tier, seed), suite_limit_not_exceeded(tier, seed)]
 
 
 # ---- corpus: minimised witnesses of the defects found (fixed ones must pass, open ones are reported under their class) -----
